@@ -208,7 +208,7 @@ def built_case(draw):
             "n_out": draw(counts), "outs": draw(st.lists(out_proto(), min_size=1, max_size=4)),
             # read raw / id / size half way through the assembly (as Transaction.create does for fee estimation)
             "touch": draw(st.sampled_from(["no", "no", "raw", "id", "size"])),
-            "parent_edit": draw(st.booleans())}
+            "parent_edit": draw(st.booleans()), "edit_output_after_read": draw(st.sampled_from([False, False, True]))}
 
 
 # ------------------------------------------------------------------------------------- building (lbry + ref)
@@ -519,7 +519,7 @@ def run_built(case):
         tx.add_outputs(outs[ho:]).add_inputs(ins[hi:])
         # inputs were appended after the second half of the outputs: order within each list is what matters
     out.label("touch:" + touch)
-    lens = [len(i.script) for i in vin] + [len(o.script) for o in vout]
+    lens = [len(i.script) for i in exp.vin] + [len(o.script) for o in exp.vout]
     out.label("n_in:" + size_class(len(vin)), "n_out:" + size_class(len(vout)))
     for n in sorted(set(size_class(x) for x in lens)):
         out.label("script_len:" + n)
@@ -527,6 +527,19 @@ def run_built(case):
         out.label("%s:%s" % (f, "edge" if case[f] in U32_EDGES else "inner"))
     out.nontrivial = (len(vin) >= 253 or len(vout) >= 253 or max(lens) >= 253 or
                       any(n != "pay_pubkey_hash" for n in out_names))
+    if case.get("edit_output_after_read"):
+        # an output script is regenerated in place after the transaction was serialised once (a channel signs its claim, a key
+        # is rotated); the callers then rely on _reset() - the first thing sign() does - to bring the bytes up to date
+        ks = [k for k, nm in enumerate(out_names) if nm == "pay_pubkey_hash"]
+        if ks:
+            k = ks[case["seed"] % len(ks)]
+            _ = tx.raw, tx.id, tx.size
+            newhash = derived_hash(seed, k, "edit")[:20]
+            outs[k].script.values["pubkey_hash"] = newhash
+            outs[k].script.generate()
+            tx._reset()
+            exp.vout[k] = R.TxOut(exp.vout[k].value, S.build_output(None, "p2pkh", {"hash": newhash}))
+            out.label("output_script_regenerated_after_first_serialisation")
     expect_raw = exp.encode_legacy()
     # (2) the library's bytes are the reference encoder's bytes
     raw = tx.raw
